@@ -1,13 +1,34 @@
 #!/usr/bin/env python3
 """Regenerates MANIFEST.json from the table below (keeps it valid at all times)."""
 import json, sys
-CLAIMED = {
- # id: (technique, level text, level_note, design_ref)
- "C15": ("complete enumeration (view x N<=64 x parameter grid x 13 stream classes) + proptest-generated two-level chains, catch_unwind oracle, release and debug-assert builds",
-         "Bounded generated search: every single view is enumerated for all N in 1..64 over 13 degenerate/ordinary stream classes in f64 and f32 (exhaustive over that finite grid), two-level chains are sampled by proptest; the oracle is 'no unwind out of update/last' in both cargo profiles. Exploration is the right level because a panic is a point failure in a finite configuration space that can be enumerated for single views and sampled densely for chains.",
-         "Trusts catch_unwind + the harness catalogue; 'moderate magnitude' read as 0 or 1e-3..1e6; listed findings (KNOWN_FINDINGS.txt) are excluded from chains by construction and reported as KNOWN-FINDING.",
-         "DESIGN.md section 4 C15"),
+READY = ["C02", "C03", "C05", "C06", "C15"]
+EXPL = "Bounded, seeded, generated search with an explicit oracle; finite configuration sub-spaces are enumerated completely (flagged exhaustive in the evidence). A pass means the oracle held on every generated case, not a proof over all inputs."
+TEXTS = {
+ "C01": ("differential decomposition oracle over all wrapper x inner pairs (proptest), probe leaves for delivery; bit-exact", "every ordered (wrapper, inner) pair of the catalogue is enumerated and driven with generated streams; chain output is compared bit-for-bit with stand-alone inner + stand-alone wrapper fed only when the inner has an output; Probe leaves check exactly-once in-order delivery."),
+ "C02": ("proptest streams vs independent batch reference in exact rational arithmetic (crate code instantiated at an exact scalar), plus f64 leg", "each windowed statistic is run at the exact scalar Q and compared for equality with a batch definition over exactly the last N raw values after every update; f64 leg with rounding-noise tolerance."),
+ "C03": ("metamorphic: two histories with different prefixes and a common suffix, exact equality in rational arithmetic after K suffix values", "pairs of histories with arbitrary (up to 2^40 x larger) distinct prefixes and a common suffix; outputs must coincide once K(view,N) suffix values are consumed."),
+ "C04": ("proptest + exact rational arithmetic: bounds, constant reproduction, monotonicity, affine equivariance, EMA recurrence and ALMA kernel reference", "metamorphic relations and definitional references for Sma, Ema, Alma decided exactly in Q, with an f64 leg."),
+ "C05": ("proptest streams vs batch gains/losses reference in exact rational arithmetic; negation relation", "Rsi and MyRSI compared at every step with G/L over the N most recent values; monotone runs, spikes leaving the window and flat-after-volatile are constructed by the generator."),
+ "C06": ("proptest streams vs Pearson / Kendall / CoG batch references in exact arithmetic; negation and rank-invariance relations", "CTI, NET and CoG compared on every full window with their statistical definitions; monotone, linear, tied, constant and zero-sum windows are constructed."),
+ "C07": ("adversarial generated histories, range oracle in f64, f32 and exact arithmetic; failures classified numerical vs algorithmic by re-running in Q", "bounded indicators are driven with flat-after-volatile, step, linear and wide-dynamic-range streams; every output is checked against its documented range to a few ulps."),
+ "C08": ("generated streams over every view and chain: monotone readiness, finiteness, warm-up table, Gate/Mute leaves", "readiness never reverts, outputs finite, first-output index equals the documented warm-up (also shifted by a gating leaf), no answer change when nothing is delivered."),
+ "C09": ("enumerated window lengths x impulse/step/worst-case inputs (BIBO bound attained), two-stream fading-memory relation", "every N from the minimum to 64 and a log grid to 1024 is enumerated; decay of the impulse response and of the difference between merged streams is measured at horizon T and 2T."),
+ "C10": ("three-run superposition relation decided exactly in rational arithmetic; DC gain clauses over all N", "x, y and a*x+b*y through three instances; out_z = a*out_x + b*out_y exactly in Q at every step, including streams that drive the state through 0."),
+ "C11": ("independent batch re-evaluation of the cited difference equations, generic over the scalar, compared in exact arithmetic and f64", "nine Ehlers-style views are compared at every step with batch references written from the papers' equations under the crate's stated conventions; branch signatures covered are reported."),
+ "C12": ("metamorphic pairs (scale, offset, negation): exact in rational arithmetic for arbitrary a, b; bit-exact in f64 for a = 2^k", "x vs a*x+b (or -x) through two instances for every view in the three lists of the statement."),
+ "C13": ("proptest positive streams vs batch definitions (exact integer accumulators), long streams in f64", "WelfordRolling, Drawdown and LnReturn compared with their batch definitions at every step; peaks after deeper troughs, repeated peaks and long streams are constructed."),
+ "C14": ("twin children beside the combinator, bit-exact pointwise oracle; history-independence relation", "Add/Subtract/Multiply/Divide/Tanh/GTE/LTE/Echo/Constant compared bit-for-bit with the operation applied to stand-alone twins of their children after every update."),
+ "C15": ("complete enumeration (view x N<=64 x parameter grid x 13 stream classes) + proptest-generated two-level chains, catch_unwind oracle, release and debug-assert builds", "every single view is enumerated for all N in 1..64 over 13 degenerate/ordinary stream classes in f64 and f32, two-level chains are sampled; the oracle is 'no unwind out of update/last' in both cargo profiles."),
+ "C16": ("differential: same generic code at f64/f32 vs exact rational scalar on envelope-respecting generated streams; flat-after-volatile construction", "floating-point outputs are compared with the exact-arithmetic run of the same view along long streams and on flat stretches following volatile ones."),
+ "C17": ("twins, extra last() calls and clones at generated positions with divergent continuations; bit-exact", "interleaved twins, repeated last() and clone/diverge histories over every view and pair."),
+ "C18": ("counting global allocator: live heap attributed to the view at stream lengths L, 4L, 16L over noise, ramps and plateaus", "live bytes owned by a view/chain must not grow between L and 16L and stay below a bound in the window lengths alone."),
 }
+CLAIMED = {}
+for pid in READY:
+    tech, what = TEXTS[pid]
+    CLAIMED[pid] = (tech, EXPL + " Here: " + what,
+        "Trusts the harness catalogue (builds the crate's real view types), the exact scalar Q (models the num::Float operations the crate calls) and proptest's generators; listed findings in KNOWN_FINDINGS.txt are reported as KNOWN-FINDING, matched by failure signature.",
+        "DESIGN.md section 4 " + pid)
 TODO_REASON = "check under construction in this session: not claimed until its clauses are committed"
 ALL = ["C%02d" % i for i in range(1, 19)]
 checks = []
